@@ -593,6 +593,33 @@ def run(ctx):
              for n in walk_no_nested(gn.fn))
     ctx.ob('C10.version-kept', 'get_predictor_namespace_and_name_from_identifier', ok,
            'the version suffix is not appended to the predictor identifier of the apply step', file=QP, line=gn.fn.lineno)
+    # every step that names a model takes the name from the reference in the query (which carries the version), never rebuilds it
+    nap = 0
+    for u in an.units:
+        for n in walk_no_nested(u.fn):
+            if not (isinstance(n, ast.Call) and 'Predictor' in ((dotted(n.func) or '').split('.')[-1])):
+                continue
+            for k in n.keywords:
+                if k.arg != 'predictor':
+                    continue
+                nap += 1
+                e = k.value
+                srcs = [e]
+                if isinstance(e, ast.Name) and e.id not in u.params:
+                    srcs = [a.value for a in walk_no_nested(u.fn) if isinstance(a, ast.Assign) and any(isinstance(t, ast.Name) and t.id == e.id for t in a.targets)]
+                ok = bool(srcs)
+                for sv in srcs:
+                    good = (isinstance(sv, ast.Call) and (dotted(sv.func) or '').split('.')[-1] == 'get_predictor_name_identifier') \
+                        or (isinstance(sv, ast.Attribute) and sv.attr in ('table', 'node') and isinstance(sv.value, ast.Name)) \
+                        or (isinstance(sv, ast.Name) and sv.id in u.params)
+                    ok = ok and good
+                ctx.ob('C10.version-kept', f'{u.key}:{(dotted(n.func) or "").split(".")[-1]}', ok,
+                       f'{u.key}: the model named in {(dotted(n.func) or "").split(".")[-1]}(predictor={norm(e)}) is built from '
+                       f'{[norm(x)[:70] for x in srcs]} instead of the model reference of the query (its parts after the namespace): a version '
+                       f'suffix `model.3` is lost and another version is applied', file=u.file, line=n.lineno,
+                       witness='select * from int1.t ta join proj.model.7 tb')
+    ctx.setcount('model_step_sites', nap)
+    ctx.floor('model_step_sites', 5)
     # G. CTE exemption --------------------------------------------------------------------------------------------------------
     gqi = units.get('QueryPlanner.get_query_info')
     ctx.need(gqi is not None, 'get_query_info not found')
